@@ -37,7 +37,7 @@ Definition nev (A : arith) (a b : T A) : bool := negb (eqv A a b).
 
 (* ------------------------------------------------------------------ Fixed *)
 (* initialize(): "if display < 0 or display > cls.precision: display = cls.precision" *)
-Definition fixed_display (p d0 : Z) : Z := if (d0 <? 0) || (d0 >? p) then p else d0.
+Definition fixed_display (p d0 : Z) : Z := if (d0 <? 0) || (p <? d0) then p else d0.
 Definition mk_fixed_cls (p d0 : Z) : fixed_cls :=
   let d := fixed_display p d0 in
   {| f_precision := p; f_display := d; f_scale := 10 ^ p; f_scaled := 10 ^ d;
@@ -86,12 +86,12 @@ Definition Fixed (p d : Z) : arith :=
 (* [stale] is whatever an earlier initialize() left in __scaledg; it is only
    assigned when display > precision (C20 proves it is only read then). *)
 Definition mk_guarded_cls (p g d0 : Z) (stale : Z) : guarded_cls :=
-  let d := if d0 >? p + g then p + g else d0 in
+  let d := if p + g <? d0 then p + g else d0 in
   let geps0 := 10 ^ g / 2 in
   {| g_precision := p; g_guard := g; g_display := d;
      g_scale := 10 ^ (p + g); g_scalep := 10 ^ p; g_scaleg := 10 ^ g;
      g_scaled := 10 ^ d; g_scaledd := 10 ^ (g + p - d); g_scaledr := 10 ^ (g + p - d) / 2;
-     g_scaledg := if d >? p then 10 ^ (d - p) else stale;
+     g_scaledg := if p <? d then 10 ^ (d - p) else stale;
      g_geps := if geps0 =? 0 then 1 else geps0 |}.
 
 Definition guarded_str (st : guarded_cls) (v : Z) : string :=
@@ -153,12 +153,14 @@ Definition q_floordiv (a b : Q) : res Q :=
 Definition q_lt (a b : Q) : bool := match Qcompare a b with Lt => true | _ => false end.
 Definition q_le (a b : Q) : bool := match Qcompare a b with Gt => false | _ => true end.
 
-Definition rational_str (dp : Z) (q0 : Q) : string :=
+Definition rational_fmt (dp : Z) (q0 : Q) : fmt_args :=
   let q := Qred q0 in
   let dps := (10 ^ dp)%Z in
   let v := if ((Qnum q =? 0) || (Zpos (Qden q) =? 1))%Z then (Qnum q * dps)%Z
            else let w := Qred (q + Qred (1 # Z.to_pos (dps * 2))) in (Qnum w * dps / Zpos (Qden w))%Z in
-  render_fmt dp 0 (Fmt2 (v / dps)%Z (v mod dps)%Z).
+  if (v <? 0)%Z then FmtNeg (Fmt2 ((- v) / dps)%Z ((- v) mod dps)%Z)
+  else Fmt2 (v / dps)%Z (v mod dps)%Z.
+Definition rational_str (dp : Z) (q : Q) : string := render_fmt dp 0 (rational_fmt dp q).
 
 Definition Rational (dp : Z) : arith :=
   {| T := Q;
